@@ -15,6 +15,8 @@ def gen(rng, tier):
     order = lambda: rng.choice(['asc', 'asc', 'desc', 'shuffle'])
     mode = rng.random()
     h = {'kind': kind, 'seed': rng.randrange(2 ** 31), 'ops': []}
+    if rng.random() < 0.3:
+        h['decoy'] = True          # a second sketch alive in the same process
     ops = h['ops']
 
     def dup_block():
@@ -111,6 +113,8 @@ def candidates(h):
             out.append(dict(h, ops=o))
     if h.get('kind') != 'hex':
         out.append(dict(h, kind='hex'))
+    if h.get('decoy'):
+        out.append({k: v for k, v in h.items() if k != 'decoy'})
     return out
 
 
